@@ -24,10 +24,15 @@ def inputs_for(bpt, tier):
     e = err_len(bpt)
     scale = max(1, round(bpt / 2.5)) if bpt > 100 else 1
     lens = [1, e, 2 * e + 1, 8 * e + 4] if tier == "thorough" else [1, e, 8 * e + 4]
-    if tier == "thorough" and bpt in (4.0,):
-        lens = [1, e, 8 * e + 4]
     out = []
-    seps = SEPS if tier == "thorough" else SEPS[:2]
+    # 200-bp separators make scaffolds of > 200 texels at 1 bp/texel (cost per case x4, cut sets x10): the thorough tier
+    # keeps them for a small family only (below) and spends its budget on more lengths, texel sizes and groupings
+    seps = SEPS[:2]
+    if tier == "thorough":
+        for style in ("tpf", "fasta"):
+            for ll in ((e, 8 * e + 4), (8 * e + 4, e), (8 * e + 4, 8 * e + 4)):
+                for st in ((1, 1), (1, -1)) if style == "tpf" else ((1, 1),):
+                    out.append((("scaffold_1", pv.scaffold_rows(style, "scaffold_1", ll, (SEPS[2],), st)),))
     for style in ("tpf", "fasta"):
         for sc in pv.gen_scaffolds(style, "scaffold_1", 2, lens, seps):
             out.append((sc,))
@@ -140,7 +145,7 @@ class C02(Check):
             # families added for specific shapes (>= 3 contigs, or a gap longer than the contig after it) are
             # explored with the narrow cut window and three arrangements in the quick tier
             chain = sum(1 for r in inp[0][1] if r[0] == "F") >= 3 or any(r[0] == "G" and r[1] >= 8 * e + 6 for r in inp[0][1])
-            for pieces in pv.pv_piece_lists(inp, bpt, max_cuts=1 if two else 2, max_pieces=3, margin=(e + 2) if (chain and (not full or sum(1 for r in inp[0][1] if r[0] == "F") >= 4)) else (3 * e + 2)):
+            for pieces in pv.pv_piece_lists(inp, bpt, max_cuts=1 if two else 2, max_pieces=3, margin=(e + 2) if (chain and (not full or sum(1 for r in inp[0][1] if r[0] == "F") >= 3)) else (3 * e + 2)):
                 n = len(pieces)
                 arrs = pv.arrangements(n) if n < 3 else pv.arrangements_reduced(n)
                 if chain and not full:
